@@ -13,12 +13,24 @@
 // Valid, DocModified False or Reason DocNotModified); otherwise the signature is listed as
 // inconclusive and its tamperings are recorded as observations only.
 //
-// Modifications and oracle. For every modification that changes at least one byte inside the
-// byte ranges of a signature, or changes the signature value (the DER object inside /Contents;
-// hex-case changes and edits of the 00 padding behind it do not change the value and are not
-// judged), api.ValidateSignaturesRaw(all) must not report that signature with Status Valid,
-// DocModified False or Reason DocNotModified. An error or a missing result counts as "not
-// reported valid". Appending bytes is outside this property's text (it is C28's): observed only.
+// Modifications and oracle. Bit flips at EVERY covered offset for files <= 8 KiB (one seeded bit per
+// offset in the quick tier, all eight in the thorough tier), 4096 seeded offsets plus every offset
+// within 64 bytes of a range boundary otherwise; an edit of every byte of the signature value,
+// classified by what the byte belongs to (signature, signed attributes, message digest,
+// encapsulated content / time-stamp imprint, signer certificate: public key / rest of the
+// tbsCertificate / the CA's signature, signer identifier); raw flips of /Contents hex digits;
+// zeroed and truncated values; /ByteRange text edits (single values, compensating pairs, swaps);
+// the signature value of another document (same signer, other signer) put in place.
+// For every modification that changes at least one byte inside the byte ranges of a signature, or
+// changes the signature value (the DER object inside /Contents; hex-case changes and edits of the
+// 00 padding behind it do not change the value and are not judged),
+// api.ValidateSignaturesRaw(all) must not report that signature with Status Valid, DocModified
+// False or Reason DocNotModified. An error or a missing result counts as "not reported valid".
+//
+// Deliberately weaker than the property's text in two places (both counted in the evidence):
+// bytes of the CMS container that no signature binds (version numbers, AlgorithmIdentifier
+// parameters, content-type OIDs, tag/length octets) may legitimately be accepted changed by a
+// verifier and are observed only; appending bytes is C28's subject and observed only.
 package main
 
 import (
@@ -47,7 +59,8 @@ type target struct {
 	Labels  [][]string // per signature: class of every byte of the signature value
 	Online  bool
 	Harness bool
-	Usable  []bool // per signature: positive baseline
+	Usable  []bool            // per signature: positive baseline
+	Swap    map[string][]byte // single-signature harness files: /Contents digits of other documents (same room)
 	Base    []string
 }
 
@@ -103,6 +116,20 @@ func run(t *vk.T) {
 				tg.Labels = append(tg.Labels, sigkit.LabelOctetString(val))
 			} else {
 				tg.Labels = append(tg.Labels, sigkit.LabelCMS(val, s.Sigs[i].Parts))
+			}
+		}
+		if len(s.Sigs) == 1 {
+			// another document (other content) signed the same way, by the same and by another signer
+			tg.Swap = map[string][]byte{}
+			for kind, p2 := range map[string]*sigkit.PKI{"swap-contents": pki, "swap-contents-other-signer": pkis[map[string]string{"rsa": "ecdsa", "ecdsa": "rsa"}[pki.Alg]]} {
+				if o.SubFilters[0] == sigkit.SFX509 && p2.Alg != "rsa" {
+					continue
+				}
+				o2 := o
+				o2.Marker = o.Marker + " other document"
+				if s2, err := sigkit.BuildSigned(p2, o2, now); err == nil && s2.Sigs[0].CEnd-s2.Sigs[0].CStart == s.Sigs[0].CEnd-s.Sigs[0].CStart {
+					tg.Swap[kind] = append([]byte(nil), s2.Bytes[s2.Sigs[0].CStart:s2.Sigs[0].CEnd]...)
+				}
 			}
 		}
 		targets = append(targets, tg)
@@ -643,31 +670,22 @@ func appendCases(ti int, tg *target) []tcase {
 func swapCases(targets []*target) []tcase {
 	var out []tcase
 	for ai, a := range targets {
-		if !a.Harness || len(a.Sigs) != 1 {
-			continue
+		kinds := make([]string, 0, len(a.Swap))
+		for k := range a.Swap {
+			kinds = append(kinds, k)
 		}
-		for bi, b := range targets {
-			if ai == bi || !b.Harness || len(b.Sigs) != 1 {
-				continue
-			}
-			sa, sb := &a.Sigs[0], &b.Sigs[0]
-			if sa.CEnd-sa.CStart != sb.CEnd-sb.CStart {
-				continue
-			}
+		sort.Strings(kinds)
+		for _, kind := range kinds {
+			sa, other := &a.Sigs[0], a.Swap[kind]
 			var ms []mod
 			for i := int64(1); i < sa.CEnd-sa.CStart-1; i++ {
-				if a.File[sa.CStart+i] != b.File[sb.CStart+i] {
-					ms = append(ms, mod{sa.CStart + i, b.File[sb.CStart+i]})
+				if a.File[sa.CStart+i] != other[i] {
+					ms = append(ms, mod{sa.CStart + i, other[i]})
 				}
 			}
-			if len(ms) == 0 {
-				continue
+			if len(ms) > 0 {
+				out = append(out, tcase{T: ai, Kind: kind, Sig: 0, Judge: true, Mods: ms, Note: "signature value of another document"})
 			}
-			kind := "swap-contents"
-			if sa.SubFilter != sb.SubFilter {
-				kind = "swap-contents-other-subfilter"
-			}
-			out = append(out, tcase{T: ai, Kind: kind, Sig: 0, Judge: true, Mods: ms, Note: "signature value taken from " + b.Name})
 		}
 	}
 	return out
